@@ -57,11 +57,22 @@ def recipe_masked_vs_deleted(ctx):
             d = rng.choice(cand)
             lab = rng.choice(list(xs[0][d].values))
             masked, deleted = [], []
+            # weights (where accepted) are one more input whose NaN invalidates the case: a weight array along d (and
+            # possibly other data dims), appended to the inputs for the blanking choice and passed as weights=
+            nw = None
+            if rc.weights and rng.random() < 0.5:
+                dd_ = [e for e in xs[0].dims if e not in rc.nondata]
+                wdims = [e for e in dd_ if e == d or rng.random() < 0.4]
+                w = gens.rand_da(rng, {e: xs[0].sizes[e] for e in dd_}, dims=wdims, lo=1, hi=3, shuffle=False)
+                xs = xs + [recipes.mat(w.assign_coords({e: xs[0][e] for e in wdims}))]
+                nw = len(xs) - 1
             having = [i for i, x in enumerate(xs) if d in x.dims]
             # blank every input, or only some of them (the case is invalid as soon as one input is missing). CDF scores:
             # a deleted observation would also leave the common threshold grid, so all inputs are blanked there;
             # single-input functions must lose their own input
-            if "threshold" in rc.nondata or rng.random() < 0.4:
+            if nw is not None and rng.random() < 0.4:
+                blank = {nw}                                # only the weight of the case is missing
+            elif "threshold" in rc.nondata or rng.random() < 0.4:
                 blank = set(having)
             else:
                 blank = set(rng.sample(having, rng.randint(1, len(having))))
@@ -79,9 +90,14 @@ def recipe_masked_vs_deleted(ctx):
                     deleted.append(x)
             others = [e for e in xs[0].dims if e not in rc.nondata and e != d]
             kw = {"reduce_dims": [d]} if rng.random() < 0.5 else {"preserve_dims": others}
-            a = core.call_impl(rc.call, masked, **kw)
-            b = core.call_impl(rc.call, deleted, **kw)
-            desc = {"fn": rc.name, "inputs": [gens.da_repr(x) for x in xs], "blanked": {d: int(lab)}, "kw": kw}
+            if nw is not None:
+                a = core.call_impl(rc.call, masked[:nw], weights=masked[nw], **kw)
+                b = core.call_impl(rc.call, deleted[:nw], weights=deleted[nw], **kw)
+            else:
+                a = core.call_impl(rc.call, masked, **kw)
+                b = core.call_impl(rc.call, deleted, **kw)
+            desc = {"fn": rc.name, "inputs": [gens.da_repr(x) for x in xs], "blanked": {d: int(lab)}, "kw": kw,
+                    "blanked_inputs": sorted(blank), "weights_is_input": nw}
             ctx.case(desc, a[0] == "ok")
             ctx.count("recipe:" + rc.name)
             ok, why = scorelib.same_result(a, b, tol=1e-8)
